@@ -55,7 +55,7 @@ RULE = (
     "LTCurve/LTImage and figures (glyphs inside, nested to depth 3); all coordinates dyadic. LAParams families: default, typical, "
     "extreme (0, 2^-20, 1e-9, 1e6, 2^20), zero, huge, flow_none, flow_float, vertical, all_texts; boxes_flow in "
     "{None,-1,-0.5,0,0.5,1} or k/64. (b) PDFs of 1-3 pages with paragraphs, columns, rotated/sheared text, a vertical CID font, "
-    "TJ gaps, rise, mixed sizes, forms (nested <=3) with text, images, inline images, paths, /Rotate. (c) sample PDFs. "
+    "TJ gaps, rise, mixed sizes, forms (nested <=3) with text, forms that paint nothing (empty, state changes only, or only the Do of such a form), images, inline images, paths, /Rotate; the LTFigure tree of every page (laparams None and given) is compared with the Do/BI invocations of the generated content. (c) sample PDFs. "
     "distinct = distinct scene / file+parameters; non-trivial = at least 2 glyphs analysed. Not generated: NaN/inf coordinates, "
     "negative glyph widths/heights, negative margins (LAParams documents them as ratios), the same LTChar object placed twice, "
     "analysing a page twice, page boxes beyond 4096 units (cost of the Plane grid grows with the page area, not with n)."
@@ -87,6 +87,8 @@ def minimums(tier: str) -> Dict[str, int]:
                 "group_leaves_checked": 20000, "seen:la_family": 9, "seen:blocks": 13, "block:corner": 600, "line_pairs_overlap_checked:H": 40000, "line_pairs_overlap_checked:V": 3000, "pdf_pages": 100, "sample_pages": 40,
                 "stress_pages": 4, "analyze_invocations:LTFigure": 1200, "containers_walked:unanalysed_figure": 1000,
                 "multi_line_boxes:V": 40, "multi_line_boxes:H": 2500, "lines_outside_boxes": 4000, "inserted_spaces": 3000,
+                "pdf_figure_trees_matched": 100, "pdf_figures_matched": 150, "pdf_empty_figures_kept": 40,
+                "pdf_empty_figures_kept:all_texts_0": 8, "pdf_empty_figures_kept:all_texts_1": 8, "scene_empty_figures_kept": 150,
                 "scene_family:figures_only": 120, "scene_family:blank_only": 120, "pdf_mode:forms_only": 5, "pdf_mode:blank_only": 5,
                 "glyphless_container_with_text_figures:page": 120, "glyphless_container_with_text_figures:figure": 60,
                 "containers_all_lines_blank:page": 120, "containers_all_lines_blank:figure": 40,
@@ -97,6 +99,8 @@ def minimums(tier: str) -> Dict[str, int]:
             "group_leaves_checked": 400000, "seen:la_family": 9, "seen:blocks": 13, "block:corner": 10000, "line_pairs_overlap_checked:H": 700000, "line_pairs_overlap_checked:V": 60000, "pdf_pages": 3000, "sample_pages": 250,
             "stress_pages": 8, "analyze_invocations:LTFigure": 25000, "containers_walked:unanalysed_figure": 20000,
             "multi_line_boxes:V": 1500, "multi_line_boxes:H": 50000, "lines_outside_boxes": 90000, "inserted_spaces": 70000,
+            "pdf_figure_trees_matched": 3000, "pdf_figures_matched": 4500, "pdf_empty_figures_kept": 1200,
+            "pdf_empty_figures_kept:all_texts_0": 250, "pdf_empty_figures_kept:all_texts_1": 250, "scene_empty_figures_kept": 3000,
             "scene_family:figures_only": 2500, "scene_family:blank_only": 2500, "pdf_mode:forms_only": 150, "pdf_mode:blank_only": 150,
             "glyphless_container_with_text_figures:page": 2500, "glyphless_container_with_text_figures:figure": 1200,
             "containers_all_lines_blank:page": 2500, "containers_all_lines_blank:figure": 800,
@@ -277,6 +281,10 @@ def _nglyphs(items: List[Any]) -> int:
     return sum(1 if it[0] == "c" else _nglyphs(it[3]) if it[0] == "f" else 0 for it in items)
 
 
+def _empty_figs(items: List[Any]) -> int:
+    return sum((1 if not it[3] else _empty_figs(it[3])) for it in items if it[0] == "f")
+
+
 def pick_n(rng: random.Random, tier: str, la: Dict[str, Any]) -> int:
     """Number of glyphs.  The hierarchical grouping (boxes_flow given) is cubic once a box as large as the page
     has formed, a page of 400 glyphs then costs a minute under the step monitor: such pages are rare in the
@@ -315,6 +323,25 @@ def gen_scene_case(seed_str: str, tier: str) -> Dict[str, Any]:
 
 
 # ----------------------------------------------------------------------------
+def _observed_figtree(container: Any) -> List[Any]:
+    """[name, children] for every LTFigure below a layout object, in order; a figure holding an LTImage -> "image"."""
+    from pdfminer.layout import LTFigure, LTImage
+
+    out: List[Any] = []
+    for o in container._objs:
+        if isinstance(o, LTFigure):
+            name = "<inline>" if (str(o.name).isdigit() or str(o.name).startswith("inline")) else str(o.name)   # inline images carry a generated name
+            if any(isinstance(k, LTImage) for k in o._objs):
+                out.append([name, "image"])
+            else:
+                out.append([name, _observed_figtree(o)])
+    return out
+
+
+def _count_nodes(tree: Any) -> int:
+    return sum(1 + (_count_nodes(kids) if isinstance(kids, list) else 0) for _n, kids in tree)
+
+
 def _raw_pages(data: bytes, password: str = "", maxpages: int = 0) -> List[Counter]:
     from pdfminer.converter import PDFPageAggregator
     from pdfminer.pdfinterp import PDFPageInterpreter, PDFResourceManager
@@ -327,13 +354,15 @@ def _raw_pages(data: bytes, password: str = "", maxpages: int = 0) -> List[Count
     for page in PDFPage.get_pages(io.BytesIO(data), maxpages=maxpages, password=password):
         it.process_page(page)
         acc: Counter = Counter()
-        _leaves(dev.get_result(), acc)
+        lt = dev.get_result()
+        _leaves(lt, acc)
+        acc["__figtree__"] = _observed_figtree(lt)  # type: ignore[assignment]
         out.append(acc)
     return out
 
 
 def run_pdf(data: bytes, la_spec: Dict[str, Any], rec: Any = None, password: str = "", maxpages: int = 0,
-            counter: str = "pdf_pages") -> List[Tuple[str, str]]:
+            counter: str = "pdf_pages", figtrees: Optional[List[Any]] = None) -> List[Tuple[str, str]]:
     from pdfminer.high_level import extract_pages
 
     MON.install()
@@ -346,6 +375,14 @@ def run_pdf(data: bytes, la_spec: Dict[str, Any], rec: Any = None, password: str
         if rec is not None:
             rec.inconclusive("raw_interpretation:" + type(e).__name__)
         return []
+    rawtrees = [r.pop("__figtree__", []) for r in raw]
+    if figtrees is not None:
+        # every Do / BI of the content is one figure of the page, in order, nesting preserved - also a form that
+        # paints nothing (laparams=None here, laparams given below)
+        for i, (want, got) in enumerate(zip(figtrees, rawtrees)):
+            if want != got:
+                fails.append(("pdf_figure_tree:laparams_none", "page %d: figures %r, the content invokes %r" % (i, got, want)))
+                break
     npages = 0
     try:
         for i, page in enumerate(extract_pages(io.BytesIO(data), password=password, maxpages=maxpages, laparams=la)):
@@ -355,6 +392,16 @@ def run_pdf(data: bytes, la_spec: Dict[str, Any], rec: Any = None, password: str
             if i >= len(raw) or got != raw[i]:
                 fails.append(("pdf_conservation", "page %d: analysed page differs from the un-analysed interpretation: %s"
                               % (i, _diff(raw[i] if i < len(raw) else Counter(), got))))
+            if figtrees is not None and i < len(figtrees):
+                tree = _observed_figtree(page)
+                if tree != figtrees[i]:
+                    fails.append(("pdf_figure_tree:analysed", "page %d: figures %r, the content invokes %r (all_texts=%r)"
+                                  % (i, tree, figtrees[i], la_spec["all_texts"])))
+                elif rec is not None:
+                    rec.count("pdf_figure_trees_matched")
+                    rec.count("pdf_figures_matched", _count_nodes(tree))
+                    rec.count("pdf_empty_figures_kept", c08gen.count_empty(tree))
+                    rec.count("pdf_empty_figures_kept:all_texts_%d" % bool(la_spec["all_texts"]), c08gen.count_empty(tree))
             if rec is not None:
                 rec.count(counter)
                 rec.count("pages_analysed")
@@ -505,6 +552,8 @@ def _run_shard(spec: Dict[str, Any], rec: Any) -> None:
             rec.see("la_family", scene["la_family"])
             rec.count("la_family:" + scene["la_family"])
             rec.count("scene_family:" + scene.get("special", "mixed"))
+            if not fails:
+                rec.count("scene_empty_figures_kept", _empty_figs(scene["items"]))
             rec.count("boxes_flow:%r" % (scene["la"]["boxes_flow"],) if scene["la"]["boxes_flow"] in c08gen.BOXES_FLOW else "boxes_flow:other")
             rec.count("detect_vertical:%d" % bool(scene["la"]["detect_vertical"]))
             rec.count("all_texts:%d" % bool(scene["la"]["all_texts"]))
@@ -530,7 +579,7 @@ def _run_shard(spec: Dict[str, Any], rec: Any) -> None:
         for i in range(spec["n"]):
             s = "C08/pdf/%d/%d/%d" % (spec["seed"], spec["sub"], i)
             case = c08gen.gen_pdf(random.Random(s))
-            fails = run_pdf(case["pdf"], case["la"], rec)
+            fails = run_pdf(case["pdf"], case["la"], rec, figtrees=case["figtrees"])
             rec.case(chash(case["pdf"], case["la"]), True)
             rec.see("la_family", case["la_family"])
             rec.count("pdf_la_family:" + case["la_family"])
@@ -539,7 +588,7 @@ def _run_shard(spec: Dict[str, Any], rec: Any) -> None:
                 rec.see("pdf_features", f)
             rec.count("pdf_mode:" + case["mode"])
             for k, detail in fails:
-                rec.fail(k, {"kind": "pdf", "pdf": case["pdf"], "la": case["la"]}, detail + " | la=%r" % (case["la"],))
+                rec.fail(k, {"kind": "pdf", "pdf": case["pdf"], "la": case["la"], "figtrees": case["figtrees"]}, detail + " | la=%r" % (case["la"],))
             if _runaway(fails):
                 rec.count("cases_skipped_after_budget_hit", spec["n"] - i - 1)
                 break
@@ -569,5 +618,5 @@ def replay(case: Dict[str, Any]) -> List[Tuple[str, str]]:
     if case["kind"] == "scene":
         return run_scene(case["scene"], None)
     if case["kind"] == "pdf":
-        return run_pdf(case["pdf"], case["la"], None)
+        return run_pdf(case["pdf"], case["la"], None, figtrees=case.get("figtrees"))
     return run_sample(case["file"], case["la_i"], case.get("maxpages", 2), None)
